@@ -238,6 +238,14 @@ def seq_fixed_cases():
          "messages": [{"id": 1, "sizes": [8, 0, 9], "flags": "none", "via": "mp"}, {"id": 2, "sizes": [8], "flags": "ok", "via": "mp"}],
          "script": ["f", "mp", "f"], "rcvtimeo": 1500},
     ] + [
+        # ROUTER sends a message part by part while ANOTHER of its peers goes away between two parts: the message still
+        # reaches its peer whole, and so does the next one
+        {"k": "seq", "transport": tr, "pattern": "router_dealer", "sender_manual": False, "receiver_manual": False, "bystander": True,
+         "messages": [{"id": 1, "sizes": [8, 9, 8, 8], "flags": "ok", "via": "parts", "by_close_after": k},
+                      {"id": 2, "sizes": [8, 8], "flags": "ok", "via": "mp"}],
+         "script": script, "rcvtimeo": 1500}
+        for tr in ("tcp",) for k in (1, 2, 3) for script in (["mp", "mp"], ["f"] * 6)
+    ] + [
         # frames that ALL still carry MORE (relayed from a longer message): one send_multipart call is one message
         {"k": "seq", "transport": tr, "pattern": pat, "sender_manual": sm, "receiver_manual": False,
          "messages": [{"id": 1, "sizes": [8, 9], "flags": "all", "via": "mp"}, {"id": 2, "sizes": [8], "flags": "all", "via": "mp"},
